@@ -1,7 +1,7 @@
 """C18 — a restricted character string only ever holds characters of its character set"""
 from common import *
 
-THEOREMS = []
+THEOREMS = ['chars_eq_spec', 'check_eq_spec', 'fromStr_eq_spec', 'fromStr_utf8', 'fromStr_wellformed', 'utf8_decode_iff', 'numeric_decode_iff', 'printable_decode_iff', 'ia5_decode_iff', 'chars_scalar', 'new_eq_spec', 'new_octets_err', 'rs_chars_eq_spec', 'chars_of_new', 'segmentation_irrelevant', 'fromContent_eq']
 RULE = ("cs.chars <cs> <mode> <encoding> / cs.new / cs.fromstr: all 1- and 2-octet strings, every lead octet c0-ff x continuation "
         "boundary alphabet {7f,80,8f,90,9f,a0,bf,c0} for 3-4 octet forms, random valid text in several scripts, each under random "
         "segmentations (split inside a multi-octet character, empty segments), 4 character sets x 3 modes x all constructors. "
@@ -70,5 +70,5 @@ def nontrivial(req, ans):
     return ans.startswith("ok")
 
 LEVEL = "proof"
-LEVEL_TEXT = "see THEOREMS"
-LEVEL_NOTE = ""
+LEVEL_TEXT = ("Lean 4 theorems for ALL octet strings and all four character sets: the model of CharSet::next_char / check / chars equals the reference decoder (RFC 3629 encoding table searched for the unique valid prefix; the NumericString, PrintableString and IA5String repertoires) on every input - it never panics, accepts exactly the valid encodings and yields exactly the encoded characters (chars_eq_spec, check_eq_spec; utf8_decode_iff characterises the reference independently of its search: l all scalar values and bs = concatenation of utf8Encode); every yielded character is a Unicode scalar value (chars_scalar); from_str accepts exactly the valid strings (fromStr_eq_spec, fromStr_wellformed); RestrictedString::new accepts iff the concatenated octets are valid, an accepted string iterates to exactly its characters without panic, and two values with the same octets behave alike whatever their segmentation (new_eq_spec, chars_of_new, segmentation_irrelevant); decoding = octet string read followed by the validity test (fromContent_eq). Correspondence: every character set x valid/invalid boundary encodings (overlong, surrogates, > U+10FFFF, truncated, stray continuation), segmented strings with characters straddling segment boundaries, from_str on Rust strings.")
+LEVEL_NOTE = ("Trusted: Lean 4.33 kernel; axioms propext, Classical.choice, Quot.sound only; the hand-written model (lean/Bcder/Model/Restricted.lean) tied to /repo on every run by differential correspondence; the reference decoder lean/Bcder/Spec/Values.lean. That a Rust str is well-formed UTF-8 is the language guarantee (explicit hypothesis in fromStr_wellformed). OS.octets = the concatenation of segments is C16/C17 territory and a hypothesis here; its error branch is covered by new_octets_err.")
